@@ -303,9 +303,14 @@ fn main() {
 
     let seeds: Vec<u64> = run.tier.pick((1..=2).collect(), (1..=16).collect());
     let mut work: Vec<(&'static str, u64)> = Vec::new();
+    // quick: the crash-prefix sweep of the persistence workload runs for the
+    // first declared seed only (it is the expensive one); thorough: all seeds.
+    let crash_seeds: Vec<u64> = run.tier.pick(vec![seeds[0]], seeds.clone());
     for w in WORKLOADS {
         for s in &seeds {
-            work.push((w, *s));
+            if w != "persistence_crash" || crash_seeds.contains(s) {
+                work.push((w, *s));
+            }
         }
     }
     // longest first
@@ -407,6 +412,7 @@ fn main() {
     }
     run.set("floors_vs_worst_over_declared_seeds", Value::Object(summary));
     run.set("layer_seeds", json!(seeds));
+    run.set("layer_seeds_crash_sweep", json!(crash_seeds));
     run.set("incremental_flush_writes_by_seed", json!(journal_lens));
     run.set("crash_margin", json!(CRASH_MARGIN));
     run.rule(
